@@ -215,13 +215,12 @@ _logical_partial_derivatives = (dx1, dx2, dx3)
 @cacheit
 def find_partial_derivatives(expr):
     """
-    returns all partial derivative expressions
+    returns all partial derivative expressions: the outermost node of every
+    chain of partial derivatives found anywhere in the expression (arguments of
+    functions, exponents and matrix entries included)
     """
     if isinstance(expr, (Add, Mul)):
         return find_partial_derivatives(expr.args)
-
-    elif isinstance(expr, Pow):
-        return find_partial_derivatives(expr.base)
 
     elif isinstance(expr, (list, tuple, Tuple)):
         args = []
@@ -229,11 +228,17 @@ def find_partial_derivatives(expr):
             args += find_partial_derivatives(a)
         return args
 
+    elif isinstance(expr, (Matrix, ImmutableDenseMatrix)):
+        return find_partial_derivatives(list(expr))
+
     elif isinstance(expr, _partial_derivatives):
         return (expr,)
 
     elif isinstance(expr, _logical_partial_derivatives):
         return (expr,)
+
+    elif isinstance(expr, Basic):
+        return find_partial_derivatives(expr.args)
 
     return ()
 
